@@ -35,6 +35,8 @@ def _load(n):
     m = importlib.util.module_from_spec(spec); spec.loader.exec_module(m); return m
 # codec level (K-codec-read / K-codec-write for every sample-granular codec): read side here, write side under C01/C07
 HARNESSES += _load("sg_common").sg_harnesses(("SEL_RD",))
+# ALAC staging layer: count / position contract of the block codec's read and write functions
+HARNESSES += _load("blk_common").alac_stage_harnesses(("SEL_READ", "SEL_WRITE"))
 
 META = {"assumptions": ["I_open (harness/include/handle.h) is the handle invariant", "codec entry points satisfy K-codec-read/-write/K-seek (proved per codec in the codec harnesses)"],
         "outside": ["request sizes beyond 2 frames at wrapper level (arithmetic is uniform in len)"]}
